@@ -59,24 +59,30 @@ func NewValidatorSet(vals []*Validator) *ValidatorSet {
 	return vs
 }
 
-// TODO: mind the overflow when times and votingPower shares too large.
+// TODO: mind the overflow when votingPower shares too large.
+// IncrementAccum advances the proposer rotation by `times` rounds, one round at a time, so that the
+// proposer of a round does not depend on how many rounds are advanced at once (a node that skips
+// rounds selects the same proposer as a node that went through every round).
 func (valSet *ValidatorSet) IncrementAccum(times int64) {
-	// Add VotingPower * times to each validator and order into heap.
+	for i := int64(0); i < times; i++ {
+		valSet.incrementAccumOnce()
+	}
+}
+
+// incrementAccumOnce adds each validator's voting power to its accum, selects the validator with the
+// greatest accum as proposer and decrements its accum by the total voting power.
+func (valSet *ValidatorSet) incrementAccumOnce() {
+	if len(valSet.Validators) == 0 {
+		return
+	}
 	validatorsHeap := gcmn.NewHeap()
 	for _, val := range valSet.Validators {
-		val.Accum += int64(val.VotingPower) * int64(times) // TODO: mind overflow
+		val.Accum += val.VotingPower // TODO: mind overflow
 		validatorsHeap.Push(val, accumComparable(val.Accum))
 	}
-
-	// Decrement the validator with most accum, times times.
-	for i := 0; i < int(times); i++ {
-		mostest := validatorsHeap.Peek().(*Validator)
-		if i == int(times-1) {
-			valSet.proposer = mostest
-		}
-		mostest.Accum -= int64(valSet.TotalVotingPower())
-		validatorsHeap.Update(mostest, accumComparable(mostest.Accum))
-	}
+	mostest := validatorsHeap.Peek().(*Validator)
+	valSet.proposer = mostest
+	mostest.Accum -= valSet.TotalVotingPower()
 }
 
 func (valSet *ValidatorSet) Copy() *ValidatorSet {
